@@ -164,6 +164,10 @@ def run_consumer(which, rar):
     Rw = z3.Or(idx == SENT, idx + b > neff)
     goals["__canary__"] = (zint(fld(new, idxf)) == z3.If(Rw, 0, idx + b))
     goals["no_int32_overflow"] = z3.And(idx + b <= INT32_MAX, idx + b >= -INT32_MAX - 1)
+    # with RAR the reshuffle must be drawn with the store's probability vector (so that inactive rows stay last, C17)
+    pfield = {"times": "p_times", "omega": "p_omega"}.get(field if isinstance(field, str) else "", None)
+    goals["reshuffle_uses_store_probabilities"] = z3.BoolVal(
+        (mine[0][4] is rec.fields[pfield]) if (rar and pfield) else (mine[0][4] is None))
     axioms = list(getattr(ex, "extra_axioms", []))
     for pm in perms:
         v = z3.Int("anyrow2")
@@ -356,7 +360,8 @@ CONSUMERS = [("DataGeneratorODE.temporal_batch", (False, True)), ("CubicMeshPDEN
              ("CubicMeshPDEStatio.inside_batch[dim=1]", (False, True)), ("CubicMeshPDEStatio.inside_batch[dim=2]", (False,)),
              ("CubicMeshPDEStatio.border_batch", (False,)), ("DataGeneratorObservations.obs_batch", (False,)),
              ("DataGeneratorParameter.param_batch[a]", (False,)), ("DataGeneratorParameter.param_batch[b]", (False,))]
-CLAUSES = ["index_update", "store_is_permuted_only", "batch_is_window_of_store", "batch_shape", "no_int32_overflow"]
+CLAUSES = ["index_update", "store_is_permuted_only", "batch_is_window_of_store", "batch_shape", "no_int32_overflow",
+           "reshuffle_uses_store_probabilities"]
 LEMMAS = ["invariant_established_by_constructor", "invariant_preserved", "no_point_twice_when_b_divides_n",
           "window_inside_active_region_when_b_divides_n", "every_point_served_before_reshuffle",
           "reshuffle_as_soon_as_all_served", "sentinel_never_a_real_index", "hint.positive_multiple_is_at_least_b",
